@@ -79,6 +79,10 @@ func (l *live) call(name string) (string, string) {
 			out = l.a.Yaml()
 		case "JsonB":
 			out = l.b.Json()
+		case "JsonASet":
+			out = l.a.Json(jd.SET)
+		case "YamlBMset":
+			out = l.b.Yaml(jd.MULTISET)
 		case "EqualsAB":
 			out = fmt.Sprint(l.a.Equals(l.b, l.opts...))
 		case "DiffAgain":
@@ -116,7 +120,7 @@ func newLive(v *drive.V2, s apiSeed) (*live, bool) {
 var apiRefOnce sync.Once
 var apiRefOut [][]string
 
-var apiCalls = []string{"Render", "RenderColor", "RenderPatch", "RenderMerge", "JsonA", "YamlA", "JsonB", "EqualsAB", "DiffAgain", "ReadMergeRender"}
+var apiCalls = []string{"Render", "RenderColor", "RenderPatch", "RenderMerge", "JsonA", "YamlA", "JsonB", "EqualsAB", "DiffAgain", "ReadMergeRender", "JsonASet", "YamlBMset"}
 
 // apiRef runs in a separate process: every call once on fresh values, for every seed.
 func apiRef(p *Plan, t *codec.Table) {
